@@ -101,7 +101,17 @@ def check_case(case, seed_key, res, tier, nassign=None, stepmon=False):
         res.count('wall_nominated')
         status, r, lines = evmon.line_clock(lambda: tuple(o.simplified for o in evgen.build(case)[1]), LINE_BUDGET, wall_s=60)
         if status == 'budget':
-            fail = ('line-budget', f'simplification still running after {lines} executed lines')
+            # A step that is still running after the line budget is either divergent or merely explosive (e.g.
+            # ((a|a|a)**4)*2 needs ~1e4 rewrite steps with ever larger constant index tables but terminates).  No finite
+            # run tells these apart, so only the known call-site signature is classified; the rest is an unresolved suspect.
+            detail = f'simplification still running after {lines} executed lines | hot rules: ' + ','.join(evmon.hot_rules())
+            mech = evfind.classify_c01(case, 'line-budget', detail)
+            if mech:
+                res.violation('simplification does not terminate normally: line-budget', dict(case=case, desc=evgen.describe(case)), detail, mechanism=mech)
+            else:
+                res.count('slow_suspect_unresolved')
+                res.note('unresolved slow suspect (line budget exceeded, no cycle evidence): ' + evgen.skeleton(case)[:300])
+            return
         elif status == 'raised' and isinstance(r, evmon.StepBudget):
             fail = ('step-budget', str(r))
         elif status == 'raised':
@@ -298,6 +308,7 @@ def finalize(m, tier, seed):
                comparisons={k[8:]: v for k, v in c.items() if k.startswith('compare/')},
                max_rewrite_steps=m.maxima.get('max_rewrite_steps', 0), rewrite_steps_total=c.get('rewrite_steps_total', 0),
                wall_nominated=c.get('wall_nominated', 0), slow_but_terminating=c.get('slow_but_terminating', 0), inconclusive_wall=c.get('inconclusive_wall', 0),
+               slow_suspect_unresolved=c.get('slow_suspect_unresolved', 0),
                operator_kinds=len([k for k in c if k.startswith('op/')]), chains_built=len(m.sets.get('chains_built', ())), chain_not_constructible=c.get('chain_not_constructible', 0),
                rule_pairs_called=len(simp_rules), rule_pairs_fired=len(simp_rules & fired), rule_pairs_never_fired=sorted(simp_rules - fired)[:60],
                step_monitor={k[8:]: v for k, v in c.items() if k.startswith('stepmon/')}, step_monitor_rules=len(m.sets.get('stepmon_rules', ())),
@@ -311,6 +322,8 @@ def finalize(m, tier, seed):
         inc = 'too few in-domain assignments'
     elif cov['rule_pairs_called'] and cov['rule_pairs_fired'] < 0.5 * cov['rule_pairs_called']:
         inc = f"only {cov['rule_pairs_fired']} of {cov['rule_pairs_called']} rewrite-rule pairs fired"
+    elif cov['slow_suspect_unresolved'] > 3 + 0.003 * cov['evaluations']:
+        inc = f"{cov['slow_suspect_unresolved']} cases exceeded the line budget without cycle evidence (unresolved suspects)"
     elif cov['inconclusive_wall'] > 3:
         inc = 'wall watchdog fired before the logical budget on several cases'
     elif cov['shadow_or_translation_suspect'] > 0.002 * cov['evaluations'] + 3:
